@@ -37,10 +37,18 @@ FILES = {
                     "class Gadget(Base):\n"
                     "    def meth(self): return 1\n"
                     "def danger(): return 'danger'\n",
+    "ljproto.py": "from ljlog import Base\nclass Proto(Base):\n    pass\n",
+    "ljfac.py": "from ljlog import Base\nfrom ljproto import Proto\n"
+                "class Factory(Base):\n    protocol = Proto\n    def build(self): return 1\n",
     "ljpkg/__init__.py": "",
     # round-trip classes: default state handling; Jellyable records whose state is built afresh by getStateFor
     "ljplain.py": "from twisted.spread import jelly\n"
                   "class P1:\n    pass\nclass P2:\n    pass\n"
+                  "class P3:\n"                                  # __new__ pre-populates an attribute
+                  "    def __new__(cls, *a, **k):\n"
+                  "        o = object.__new__(cls)\n"
+                  "        o.default = 0\n"
+                  "        return o\n"
                   "class Rec(jelly.Jellyable):\n"
                   "    def __init__(self, name, tags):\n"
                   "        self.name, self.tags, self.secret = name, tags, 'not sent'\n"
@@ -127,7 +135,7 @@ def _world_dir():
 
 def _purge():
     for m in list(sys.modules):
-        if m == "ljforeign" or m == "ljpkg" or m.startswith("ljpkg."):
+        if m in ("ljforeign", "ljpkg", "ljfac", "ljproto") or m.startswith("ljpkg."):
             del sys.modules[m]
 
 
@@ -407,6 +415,11 @@ def oracle(case, obs):
                            "instantiated:" + c)
     if res.startswith("OK:"):
         import re
+        m = re.search(r"C<\?([^>]*)>", res)
+        if m and not insts:
+            # known finding: the method tag with im_self None hands back whatever the class __dict__ holds
+            return Failure(case, f"result contains class {m.group(1)}, which the policy does not allow: the method tag "
+                                 f"returns a class-valued attribute of an allowed class", "method-tag-returns-class-attribute")
         for kind, nm in re.findall(r"([MCFIm])<([0-9.]*)>", res):
             name = unnum(nm)
             if kind in "CIm" and name not in pol["classes"]:
@@ -600,7 +613,7 @@ def _acode(tab, v):
     return tab[(type(v).__name__, v)]
 
 
-CLS_CODE = {"ljplain.P1": 1, "ljplain.P2": 2}
+CLS_CODE = {"ljplain.P1": 1, "ljplain.P2": 2, "ljplain.P3": 3}
 
 
 def show_real_sexp(x, tab):
@@ -712,7 +725,7 @@ def impl_roundtrip(case) -> str:
     decoy = jelly.SecurityOptions()          # a second policy object in the same process
     decoy.allowTypes("function", "module")
     ljplain = importlib.import_module("ljplain")
-    p.allowInstancesOf(ljplain.P1, ljplain.P2)
+    p.allowInstancesOf(ljplain.P1, ljplain.P2, ljplain.P3)
     g = build_graph(case["graph"])
     tab = _atoms(case["graph"])
     sx = "?"
@@ -788,7 +801,12 @@ def rand_graph(rng):
                 d += ["k%d" % j, rng.randrange(n)]
             spec.append(d)
         elif k < 0.7:
-            d = ["inst", rng.choice(["ljplain.P1", "ljplain.P2"])]
+            d = ["inst", rng.choice(["ljplain.P1", "ljplain.P2", "ljplain.P3", "ljplain.P3"])]
+            if d[1] == "ljplain.P3":
+                # its __new__ sets `default`; direct attribute-level cycles: itself, or any other node
+                d += ["default", ("zero", 0)]
+                for a in ("me", "peer")[:rng.randrange(1, 3)]:
+                    d += [a, i if rng.random() < 0.5 else rng.randrange(n)]
             for j in range(rng.randrange(3)):
                 d += ["a%d" % j, rng.randrange(n)]
             spec.append(d)
@@ -798,6 +816,11 @@ def rand_graph(rng):
             spec.append(["int", rng.randrange(-5, 10 ** rng.randrange(1, 12))])
         else:
             spec.append(rng.choice([["str", "texté"], ["none"], ["str", ""]]))
+    for d in spec:
+        for k, x in enumerate(d):
+            if isinstance(x, tuple):
+                spec.append(["int", 0])
+                d[k] = len(spec) - 1
     # tuples may only point at non-tuple nodes or earlier tuples: enforce
     for i, d in enumerate(spec):
         if d[0] == "tuple":
@@ -900,6 +923,25 @@ def rand_container_cycle(rng):
     return {"kind": "roundtrip", "graph": spec}
 
 
+def rand_factory_case(rng):
+    """an allowed class whose __dict__ holds a class of a module the policy does not allow (Factory.protocol = Proto);
+    the `instance` atom whose class slot is a method / reference expression evaluating to that class (oracle only)"""
+    A = lambda n: {"a": n}
+    meth = ["method", {"s": "protocol"}, ["None"], ["class", A("ljfac.Factory")]]
+    state = rng.choice([["dictionary"], ["dictionary", {"i": 1}, {"i": 2}], ["list"]])
+    k = rng.random()
+    if k < 0.5:
+        sexp = ["instance", meth, state]
+    elif k < 0.75:
+        sexp = ["list", ["reference", {"i": 1}, meth], ["instance", ["dereference", {"i": 1}], state]]
+    elif k < 0.9:
+        sexp = ["list", ["instance", meth, state], ["instance", ["class", A("ljfac.Factory")], state]]
+    else:
+        sexp = meth
+    types_ = ["instance", "method", "class", "None", "dictionary", "list", "reference", "dereference"]
+    return {"policy": {"types": types_, "modules": ["ljfac"], "classes": ["ljfac.Factory"]}, "sexp": sexp}
+
+
 def rand_method_case(rng):
     """[method, name, self, [class, C]] under a policy that allows the method tag and (mostly) the class C; the name is
     C's own method, a method inherited from a base in an allowed / a foreign module, a type attribute, or missing"""
@@ -939,7 +981,9 @@ def gen(rng, tier):
         k = rng.random()
         if k < 0.02:
             out.append(rand_records(rng))
-        elif k < 0.05:
+        elif k < 0.035:
+            out.append(rand_factory_case(rng))
+        elif k < 0.06:
             out.append(rand_container_cycle(rng))
         elif k < 0.12:
             out.append(rand_graph(rng))
@@ -989,6 +1033,13 @@ def corpus():
         {"policy": P(TYPES, MODULES, CLASSES), "sexp": ["os.system", A("x")]},
         {"policy": P(TYPES, MODULES, CLASSES), "sexp": ["function", A("os.system")]},
         {"policy": P(TYPES, MODULES, CLASSES), "sexp": ["instance", ["class", A("subprocess.Popen")], ["list"]]},
+        {"policy": P(["instance", "method", "class", "None", "dictionary"], ["ljfac"], ["ljfac.Factory"]),
+         "sexp": ["instance", ["method", {"s": "protocol"}, ["None"], ["class", A("ljfac.Factory")]], ["dictionary"]]},
+        {"policy": P(["instance", "method", "class", "None", "dictionary"], ["ljfac"], ["ljfac.Factory"]),
+         "sexp": ["method", {"s": "protocol"}, ["None"], ["class", A("ljfac.Factory")]]},
+        {"kind": "roundtrip", "graph": [["list", 1], ["inst", "ljplain.P3", "default", 2, "me", 1], ["int", 0]]},
+        {"kind": "roundtrip", "graph": [["list", 1], ["inst", "ljplain.P3", "default", 3, "peer", 2],
+                                        ["inst", "ljplain.P3", "default", 3, "peer", 1], ["int", 0]]},
         {"kind": "records", "records": [["Rec", "rec%d" % i, ["t%d" % i]] for i in range(3)], "order": [0, 1, 2]},
         {"kind": "records", "records": [["Rec", "rec%d" % i, ["t%d" % i, "u"]] for i in range(60)], "order": list(range(60))},
         {"kind": "records", "records": [[("LRec" if i % 2 else "Rec"), "r%d" % i, []] for i in range(200)],
